@@ -422,6 +422,94 @@ template<typename E> static void run_noderemove(size_t n, long k, size_t index)
 	cleanup_case();
 }
 
+// ---- BucketLimP4::AddCrt into a block that still has a free slot (details/HashBucketLimP4.h:345-353) ---------------------
+template<typename E> static void run_bucketadd(size_t n, long k)
+{
+	typedef momo::HashSetItemTraits<E, AMM> IT;
+	typedef momo::internal::HashSetBucketItemTraits<IT> BIT;
+	typedef momo::internal::BucketLimP4<BIT, 4, momo::MemPoolParams<1, 0>, false> Bucket;
+	const char* outcome = "Ok";
+	{
+		E* arg = lives<E>(7, 1);                 // region 0
+		AMM mm;
+		typename Bucket::Params params(mm);
+		Bucket bucket;
+		for (size_t j = 0; j <= n; ++j)          // n + 1 items: the block has capacity n + 1 ...
+		{
+			auto crt = [j] (E* p) { ::new(static_cast<void*>(p)) E(int64_t(100 + j)); };
+			bucket.AddCrt(params, crt, size_t(j) << 56, 3, 0);
+		}
+		{	// ... then remove the last one: n items, one free slot
+			auto bounds = bucket.GetBounds(params);
+			E* last = bounds.GetBegin() + n;
+			bucket.Remove(params, last, [] (E& src, E& /*dst*/) { src.~E(); });
+		}
+		const char* items = reinterpret_cast<const char*>(bucket.GetBounds(params).GetBegin());
+		size_t blk = ~size_t(0);
+		for (auto& r : g_regs) if (r.live && items >= r.base && items < r.base + r.bytes) blk = r.id;
+		begin_case(k);
+		try
+		{
+			auto crt = [arg] (E* p) { ::new(static_cast<void*>(p)) E(static_cast<const E&>(*arg)); };
+			bucket.AddCrt(params, crt, size_t(9) << 56, 3, 0);
+		}
+		catch (...) { outcome = "Exn"; }
+		W().disarm(); W().elogging = false;
+		size_t cnt = bucket.GetBounds(params).GetCount();
+		auto lname = [&] (const void* a) -> std::string
+		{
+			const char* p = static_cast<const char*>(a);
+			if (p >= g_regs[0].base && p < g_regs[0].base + g_regs[0].bytes) return "a.0";
+			const Region& r = g_regs[blk];
+			if (p >= r.base && p < r.base + r.bytes) return "o." + std::to_string(size_t(p - items) / sizeof(E));
+			return "?";
+		};
+		std::map<uint64_t, const void*> addr_of;
+		for (auto& kv : W().slot_of) addr_of[kv.second] = kv.first;
+		std::string out = W().errors.empty() ? std::string(outcome) : ("Stuck(" + W().errors[0] + ")"), evs, blocks;
+		for (auto& e : W().elog)
+		{
+			std::string s;
+			switch (e.kind)
+			{
+			case 'A': s = "A?"; break;
+			case 'D': s = "D?"; break;
+			case 'C': s = "C" + lname(addr_of[e.b]) + ">" + lname(addr_of[e.a]); break;
+			case 'M': s = "M" + lname(addr_of[e.b]) + ">" + lname(addr_of[e.a]); break;
+			case 'X': s = "X" + lname(addr_of[e.a]); break;
+			case 'F': s = "F"; break;
+			default: continue;
+			}
+			if (!evs.empty()) evs += " ";
+			evs += s;
+		}
+		for (size_t rid : { size_t(0), blk })
+		{
+			const Region& r = g_regs[rid];
+			if (!blocks.empty()) blocks += " ";
+			blocks += (rid == 0 ? "a[" : "o["); bool first = true;
+			for (auto& kv : W().objs)
+			{
+				const char* p = static_cast<const char*>(kv.first);
+				if (p < r.base || p >= r.base + r.bytes) continue;
+				if (!first) blocks += " ";
+				first = false;
+				blocks += std::to_string(size_t(p - (rid == 0 ? r.base : items)) / sizeof(E)) + ":L" + std::to_string(**reinterpret_cast<int64_t* const*>(kv.first));
+			}
+			blocks += "]";
+		}
+		printf("cnt=%zu %s | %s | %s\n", cnt, out.c_str(), evs.c_str(), blocks.c_str());
+		// tidy up: the bucket does not own its items
+		{
+			std::vector<const void*> in;
+			for (auto& kv : W().objs) { const char* p = static_cast<const char*>(kv.first); if (p >= g_regs[blk].base && p < g_regs[blk].base + g_regs[blk].bytes) in.push_back(kv.first); }
+			for (const void* a : in) const_cast<E*>(static_cast<const E*>(a))->~E();
+		}
+		bucket.Clear(params);
+	}
+	cleanup_case();
+}
+
 int main()
 {
 	g_arena = static_cast<char*>(std::malloc(ARENA));
@@ -430,6 +518,11 @@ int main()
 	{
 		std::istringstream is(line); std::string mech, cat; size_t n = 0; long k = -1;
 		is >> mech >> cat >> n >> k;
+		if (mech == "bucketadd")
+		{
+			if (cat == "N") run_bucketadd<kit::ElemNtm>(n, k); else if (cat == "C") run_bucketadd<kit::ElemCpo>(n, k); else if (cat == "T") run_bucketadd<kit::ElemThm>(n, k); else puts("?");
+			fflush(stdout); continue;
+		}
 		if (mech == "noderemove")
 		{
 			size_t index = 0; is >> index;
